@@ -91,11 +91,16 @@ func c14EvalEncode(w *mc.W, cas c14Enc) {
 			if err != nil || ref.Hash32(fh) != wantFH {
 				fail("filter-hash-is-not-double-sha256-of-nbytes", fmt.Sprintf("N=%d", n))
 			}
-			prev := chainhash.Hash{0x12, 0x34}
-			hd, err := builder.MakeHeaderForFilter(f, prev)
-			wantHD := ref.DoubleSHA256(append(append([]byte{}, wantFH[:]...), prev[:]...))
-			if err != nil || ref.Hash32(hd) != wantHD {
-				fail("filter-header-is-not-double-sha256-of-hash-and-previous-header", fmt.Sprintf("N=%d", n))
+			// several previous headers in a row for the SAME filter object (the all-zero one of the first
+			// block, one differing from it in a single byte, the first again): the header is a function
+			// of both arguments
+			for _, prev := range []chainhash.Hash{{0x12, 0x34}, {}, {7: 0x5a}, {0x12, 0x34}, {31: 0x01}} {
+				hd, err := builder.MakeHeaderForFilter(f, prev)
+				wantHD := ref.DoubleSHA256(append(append([]byte{}, wantFH[:]...), prev[:]...))
+				if err != nil || ref.Hash32(hd) != wantHD {
+					fail("filter-header-is-not-double-sha256-of-hash-and-previous-header", fmt.Sprintf("N=%d previous header %x", n, prev[:8]))
+					break
+				}
 			}
 		}
 		if !bytes.Equal(pb, append([]byte{cas.P}, want...)) {
@@ -374,11 +379,13 @@ func c14EvalBlock(w *mc.W, cas c14Blk) {
 		if err != nil || ref.Hash32(fh) != wantFH {
 			fail("filter-hash-is-not-double-sha256-of-nbytes", "")
 		}
-		prev := chainhash.Hash{0x77, 0x66}
-		hd, err := builder.MakeHeaderForFilter(f, prev)
-		wantHD := ref.DoubleSHA256(append(append([]byte{}, wantFH[:]...), prev[:]...))
-		if err != nil || ref.Hash32(hd) != wantHD {
-			fail("filter-header-is-not-double-sha256-of-hash-and-previous-header", "")
+		for _, prev := range []chainhash.Hash{{0x77, 0x66}, {}, {0x77, 0x67}, {0x77, 0x66}} {
+			hd, err := builder.MakeHeaderForFilter(f, prev)
+			wantHD := ref.DoubleSHA256(append(append([]byte{}, wantFH[:]...), prev[:]...))
+			if err != nil || ref.Hash32(hd) != wantHD {
+				fail("filter-header-is-not-double-sha256-of-hash-and-previous-header", fmt.Sprintf("previous header %x", prev[:8]))
+				break
+			}
 		}
 		if cas.Mempool {
 			w.Outcome(fmt.Sprintf("mempool filter with %d elements", min(len(items), 3)))
